@@ -130,7 +130,7 @@ fn main() {
     let sigs: Vec<usize> = (0..model.spec.decls.len()).filter(|i| model.spec.decls[*i].cmd.starts_with("ARG:")).collect();
     h.assume("lenient classes (either the stated rejection or delivery of the mathematically exact value, never anything else): integral decimals written with '.'/exponent into integers, -0 into unsigned integers, float overflow (+-inf of the right sign or -120), #H/#Q/#B into floats, TRUE/FALSE, mixed-case On/Off, other spellings of exactly 0 or 1 into bool");
     h.assume("correct rounding is verified by exact integer arithmetic for literals up to 1300 digits and |exponent| <= 1600; beyond that only 'not NaN'");
-    let cases = h.tier.pick(200_000, 6_000_000);
+    let cases = h.tier.pick(500_000, 6_000_000);
     h.check(
         "c03.signatures",
         "proptest tapes -> one command of the ty fixture (15 single-parameter commands, one per type in {u8..u64,i8..i64,usize,isize,f32,f64,bool,&str,&[u8]}, and signatures with 0,1,2,3,5,10 parameters of mixed types, sync and async, command and query) with one generated literal per parameter (integers at/just beyond/far beyond each bound and in range modulo 2^bits, in decimal with sign/leading zeros and in #H/#Q/#B with both letter cases; decimal reals with up to 25+25 digits and exponents, exact decimal expansions of midpoints between adjacent f32/f64 values perturbed in a far digit and respelled with exponents, overflow/underflow thresholds; boolean spellings; strings; blocks incl. zero-padded lengths; mismatched kinds) and, in 1/8 of the cases, 0..12 parameters instead of the declared number: handler invoked exactly once with exactly the written values (floats judged by exact arithmetic) and no error, or not invoked and exactly one error with a number the offending literals allow; non-trivial = a literal at a bound, in another radix class, at a rounding boundary, of a mismatched kind, or a wrong parameter count",
@@ -138,7 +138,7 @@ fn main() {
         |h, st| h.tape_search("c03.signatures", cases, 160, st, |tape, st| sig_prop(&model, &sigs, tape, st)),
         |case| replay_tape(case, |tape, st| sig_prop(&model, &sigs, tape, st)),
     );
-    let cases = h.tier.pick(200_000, 6_000_000);
+    let cases = h.tier.pick(500_000, 6_000_000);
     h.check(
         "c03.direct",
         "proptest tapes -> (type, literal) from the same generators, converted with TryInto<T> for &Value directly (no parser in the loop) and judged by the same reference semantics",
